@@ -132,16 +132,38 @@ type fidFail struct {
 }
 
 type dsts struct {
-	exact [5]*store // exact[L]: allocation of exactly L rows
-	view  *store    // 6 rows; destination is rows [1,1+L)
+	c     combo
+	exact map[int]*store // exact[L]: allocation of exactly L rows
+	views map[int]*store // views[N]: allocation of N rows; destination is rows [1,1+L)
 }
 
 func newDsts(c combo) *dsts {
-	d := &dsts{view: newStore(c, 6)}
-	for L := 1; L <= 4; L++ {
-		d.exact[L] = newStore(c, L)
+	return &dsts{c: c, exact: map[int]*store{}, views: map[int]*store{}}
+}
+
+func (d *dsts) exactFor(L int) *store {
+	s := d.exact[L]
+	if s == nil {
+		s = newStore(d.c, L)
+		d.exact[L] = s
 	}
-	return d
+	return s
+}
+
+// viewFor returns the allocation that holds the view destinations of a
+// round trip whose largest destination has maxL rows: 6 rows for maxL<=4
+// (one allocation shared by all destination lengths), else maxL+2.
+func (d *dsts) viewFor(maxL int) *store {
+	n := 6
+	if maxL > 4 {
+		n = maxL + 2
+	}
+	s := d.views[n]
+	if s == nil {
+		s = newStore(d.c, n)
+		d.views[n] = s
+	}
+	return s
 }
 
 type fidStats struct {
@@ -177,7 +199,11 @@ func readBack(e *encoded, d *dsts, dstSeq []int, dview, reuse bool, rkind int, s
 	}
 	defer func() {
 		if p := recover(); p != nil {
-			fail = mk("panic", map[string]interface{}{"panic": fmt.Sprint(p)})
+			msg := fmt.Sprint(p)
+			if i := strings.Index(msg, " for slice frame"); i >= 0 {
+				msg = msg[:i] // the frame's type list would make one signature per column combination
+			}
+			fail = mk("panic:"+normalize(msg), map[string]interface{}{"panic": fmt.Sprint(p)})
 		}
 	}()
 	var src io.Reader = bytes.NewReader(e.data)
@@ -191,14 +217,21 @@ func readBack(e *encoded, d *dsts, dstSeq []int, dview, reuse bool, rkind int, s
 	mb, mbuf, usedBuf := 0, 0, false
 	maxReads := len(e.lens) + len(e.truth) + 3
 	var rb []byte
-	if reuse {
-		atomic.AddInt64(&st.reused, 1)
-		d.view.fill()
-		for L := 1; L <= 4; L++ {
-			d.exact[L].fill()
+	maxL := 0
+	for _, L := range dstSeq {
+		if L > maxL {
+			maxL = L
 		}
 	}
-	var before [6]string
+	view := d.viewFor(maxL)
+	if reuse {
+		atomic.AddInt64(&st.reused, 1)
+		view.fill()
+		for _, L := range dstSeq {
+			d.exactFor(L).fill()
+		}
+	}
+	before := make([]string, maxL+6)
 	for ; ; readIdx++ {
 		if readIdx >= maxReads {
 			return mk("no-progress", nil)
@@ -208,10 +241,10 @@ func readBack(e *encoded, d *dsts, dstSeq []int, dview, reuse bool, rkind int, s
 		var dst frame.Frame
 		off := 0
 		if dview {
-			s, off = d.view, 1
+			s, off = view, 1
 			dst = s.full.Slice(1, 1+L)
 		} else {
-			s = d.exact[L]
+			s = d.exactFor(L)
 			dst = s.full
 		}
 		if reuse {
@@ -284,7 +317,7 @@ func readBack(e *encoded, d *dsts, dstSeq []int, dview, reuse bool, rkind int, s
 	}
 	// after end-of-stream no more rows may appear
 	readIdx++
-	s := d.exact[1]
+	s := d.exactFor(1)
 	s.fill()
 	n, err := rd.Read(ctx, s.full)
 	lastN, lastErr = n, err
